@@ -117,6 +117,49 @@ func runC03(r *ev.Run) {
 	r.Assumptions = []string{"cryptographic soundness of Ed25519/Noise is trusted; the adversary is the concrete catalogue, composed randomly"}
 	attacks := c03Catalogue()
 	n := pick(r, 120, 6000)
+	// a few honestly established sessions live through the whole run: thousands of other handshakes (with other keys, forged
+	// and genuine) happen in the same process meanwhile, and at the end each must still report the key it authenticated.
+	type longLived struct {
+		s    *p2pke.Session
+		peer x509.PublicKey
+		name string
+	}
+	var elders []longLived
+	for i := 0; i < 4; i++ {
+		ka, kb := keyN(300+2*i), keyN(301+2*i)
+		a, b := newSession(ka, true, pkeT0), newSession(kb, false, pkeT0)
+		now := pkeT0.Add(time.Second)
+		_, m1, _ := b.Deliver(nil, a.Handshake(nil), now)
+		_, m2, _ := a.Deliver(nil, m1, now)
+		_, m3, _ := b.Deliver(nil, m2, now)
+		a.Deliver(nil, m3, now)
+		if a.IsReady() && b.IsReady() {
+			elders = append(elders, longLived{a, kb.Pub, fmt.Sprintf("initiator %d", i)}, longLived{b, ka.Pub, fmt.Sprintf("responder %d", i)})
+		}
+	}
+	defer func() {
+		// ... including handshakes with many keys never seen before
+		for i := 0; i < 48; i++ {
+			ka, kb := keyN(400+2*i), keyN(401+2*i)
+			a, b := newSession(ka, true, pkeT0), newSession(kb, false, pkeT0)
+			now := pkeT0.Add(time.Second)
+			_, m1, _ := b.Deliver(nil, a.Handshake(nil), now)
+			_, m2, _ := a.Deliver(nil, m1, now)
+			_, m3, _ := b.Deliver(nil, m2, now)
+			a.Deliver(nil, m3, now)
+		}
+		for _, e := range elders {
+			r.Eval(1)
+			rk := e.s.RemoteKey()
+			if !x509.EqualPublicKeys(&rk, &e.peer) {
+				r.Violate("C03/remote-key-changed-after-establishment", "long-lived", "a session established at the start of the run reports, at the end of it, a remote key other than the one its peer proved (other handshakes in the same process changed it)", map[string]any{"session": e.name, "reports": fmt.Sprintf("%x", rk.Data), "authenticated": fmt.Sprintf("%x", e.peer.Data)})
+				return
+			}
+		}
+		if len(elders) > 0 {
+			r.NonTrivial("long-lived/remote-key-stable")
+		}
+	}()
 	for ai, at := range attacks {
 		g := rng.New(r.Seed, "C03", at.name, fmt.Sprint(r.Batch))
 		for i := 0; i < n; i++ {
